@@ -19,7 +19,17 @@ for d in sorted(glob.glob('/verif/seeded/*')):
         first = 'caught by the first version it met'
     rows.append(f"| {name} | {files} | {summ} | {det.get('check')} | {first.replace('|','/')} |")
 table = "| seed | touches | change (first sentence of the agent's summary) | detected by | history |\n|------|---------|-----------------------------------------------|-------------|---------|\n" + "\n".join(rows)
-table += f"\n\n{len(rows)} seeds kept; missed by the first version of the check they met: {', '.join(missed)} ({len(missed)})."
+by_round = {}
+for d in sorted(glob.glob('/verif/seeded/*')):
+    name = os.path.basename(d)
+    suffix = name.split('_', 1)[1]
+    r = suffix if suffix in ('a', 'b', 'c', 'd', 'e') else 'other'
+    k = by_round.setdefault(r, [0, 0])
+    k[0] += 1
+    if name in missed:
+        k[1] += 1
+rounds = "; ".join(f"round `_{r}`: {v[1]} of {v[0]} missed at first" for r, v in sorted(by_round.items()) if r != 'other')
+table += f"\n\n{len(rows)} seeds kept ({rounds}); missed by the first version of the check they met: {', '.join(missed)} ({len(missed)})."
 s = open('/verif/DESIGN.md').read()
 a = s.index('<!-- seed-table-begin -->') + len('<!-- seed-table-begin -->')
 b = s.index('<!-- seed-table-end -->')
